@@ -357,6 +357,6 @@ def r2_form_selection(ctx, rep):
 
 
 RULES = [
-    RuleSpec("C14.R1", r1_columns, "column table agreement", floor=12),
-    RuleSpec("C14.R2", r2_form_selection, "form selection plumbing", floor=7),
+    RuleSpec("C14.R1", r1_columns, "column table agreement", floor=7),
+    RuleSpec("C14.R2", r2_form_selection, "form selection plumbing", floor=4),
 ]
